@@ -142,6 +142,21 @@ def Eff.written : Eff → Option Nat
   | .storeRes a _ => some a
   | _ => none
 
+/-- address of a result store -/
+def Eff.resAddr : Eff → Option Nat
+  | .storeRes a _ => some a
+  | _ => none
+
+/-- address of a thread-id store -/
+def Eff.idAddr : Eff → Option Nat
+  | .storeId a _ => some a
+  | _ => none
+
+/-- (function slot, argument address) of a call -/
+def Eff.callOf : Eff → Option (Nat × Nat)
+  | .call f x _ => some (f, x)
+  | _ => none
+
 /-- the fuel the driver uses (any fuel ≥ `n` is enough, see `Proofs/Bulk`) -/
 def fuelFor (n : Nat) : Nat := n + 1
 
